@@ -7,3 +7,6 @@ theories/Sem.vos theories/Sem.vok theories/Sem.required_vos: theories/Sem.v theo
 theories/Spec.vo theories/Spec.glob theories/Spec.v.beautified theories/Spec.required_vo: theories/Spec.v theories/Base.vo
 theories/Spec.vio: theories/Spec.v theories/Base.vio
 theories/Spec.vos theories/Spec.vok theories/Spec.required_vos: theories/Spec.v theories/Base.vos
+theories/IntSpec.vo theories/IntSpec.glob theories/IntSpec.v.beautified theories/IntSpec.required_vo: theories/IntSpec.v theories/Base.vo theories/Spec.vo theories/Sem.vo
+theories/IntSpec.vio: theories/IntSpec.v theories/Base.vio theories/Spec.vio theories/Sem.vio
+theories/IntSpec.vos theories/IntSpec.vok theories/IntSpec.required_vos: theories/IntSpec.v theories/Base.vos theories/Spec.vos theories/Sem.vos
